@@ -9,6 +9,8 @@ BASES = [
     ("b1k32", ["-t", "ext4", "-b", "1024", "-O", "^64bit,^metadata_csum", "-J", "size=1"], "10M"),
     ("b1k64c", ["-t", "ext4", "-b", "1024", "-O", "64bit,metadata_csum", "-J", "size=1"], "10M"),
     ("b4k64c", ["-t", "ext4", "-b", "4096", "-O", "64bit,metadata_csum", "-J", "size=4"], "24M"),
+    # a journal large enough to carry a fast-commit area behind a log of JBD2_MIN_JOURNAL_BLOCKS
+    ("b1k_j2", ["-t", "ext4", "-b", "1024", "-O", "^metadata_csum", "-J", "size=2"], "16M"),
 ]
 
 
@@ -135,6 +137,12 @@ def gen_txns(r, cfg, targets, force_desc_time=None):
         txns[i]["commit_seq_override"] = True
         note = "commit of txn %d missing (later ones present)" % txns[i]["seq"]
         txns[i]["commit"]["missing"] = True
+    elif len(txns) >= 3 and k < 0.72 and (cfg.csum or cfg.v1):
+        # two commit blocks in a row fail their checksums: the log ends at the first of them (also under ASYNC_COMMIT)
+        i = r.randrange(len(txns) - 2)
+        txns[i]["commit"]["bad_csum"] = True
+        txns[i + 1]["commit"]["bad_csum"] = True
+        note = "two consecutive commit csums bad in the middle of the log"
     elif len(txns) >= 2 and k < 0.66 and (cfg.csum or cfg.v1):
         # a commit block in the middle of the log fails its checksum: the log ends there, also under ASYNC_COMMIT
         i = r.randrange(len(txns) - 1)
@@ -146,7 +154,10 @@ def gen_txns(r, cfg, targets, force_desc_time=None):
 def prepare(jimg, cfg_incompat, seq0, start_rel, txns, out_path):
     """write the encoded log into a copy of the image; returns (cfg, views{rel: view})"""
     shutil.copy(jimg.path, out_path)
-    cfg = Cfg(jimg.bs, jimg.first, jimg.maxlen, jimg.uuid, cfg_incompat, seq0, start_rel)
+    fc = bool(cfg_incompat & INCOMPAT_FC)
+    NFC = 16
+    # with FAST_COMMIT the last s_num_fc_blks blocks of the journal are the fast-commit area: the log ends in front of it
+    cfg = Cfg(jimg.bs, jimg.first, jimg.maxlen - (NFC if fc else 0), jimg.uuid, cfg_incompat & ~INCOMPAT_FC, seq0, start_rel)
     enc, endpos = encode_log(cfg, txns)
     fs = jimg.fs
     with open(out_path, "r+b") as f:
@@ -156,7 +167,13 @@ def prepare(jimg, cfg_incompat, seq0, start_rel, txns, out_path):
         jsb = bytearray(jimg.jsb)
         struct.pack_into(">II", jsb, 0x18, seq0 & 0xFFFFFFFF, cfg.first + start_rel)
         compat, incompat, ro = struct.unpack_from(">III", jsb, 0x24)
-        incompat = (incompat & ~(INCOMPAT_64BIT | INCOMPAT_CSUM2 | INCOMPAT_CSUM3 | INCOMPAT_ASYNC)) | cfg.incompat | INCOMPAT_REVOKE
+        incompat = (incompat & ~(INCOMPAT_64BIT | INCOMPAT_CSUM2 | INCOMPAT_CSUM3 | INCOMPAT_ASYNC | INCOMPAT_FC)) | cfg.incompat | INCOMPAT_REVOKE | (INCOMPAT_FC if fc else 0)
+        struct.pack_into(">I", jsb, 0x54, NFC if fc else 0)
+        if fc:
+            for k in range(jimg.maxlen - NFC, jimg.maxlen):       # an empty fast-commit area
+                if k in jimg.map:
+                    f.seek(jimg.map[k] * fs.bs)
+                    f.write(b"\0" * fs.bs)
         struct.pack_into(">III", jsb, 0x24, (compat | COMPAT_CHECKSUM) if cfg.v1 else (compat & ~COMPAT_CHECKSUM), incompat, ro)
         jsb[0x50] = 4 if cfg.csum else 0
         struct.pack_into(">I", jsb, 0xFC, 0)
@@ -215,17 +232,20 @@ def one_case(src, mexe, idx, seed, tier):
         inc |= INCOMPAT_64BIT
     if mode != "none" and r.random() < 0.3:
         inc |= INCOMPAT_ASYNC            # a failed commit checksum still ends the log, the scan only goes on looking
-    jlen = jimg.maxlen - jimg.first
+    fcj = jimg.maxlen - 16 >= 1024 and r.random() < 0.5
+    if fcj:
+        inc |= INCOMPAT_FC               # fast-commit area (empty) behind the log: the log wraps in front of it
+    jlen = jimg.maxlen - jimg.first - (16 if fcj else 0)
     k = r.random()
     start_rel = 0 if k < 0.3 else (jlen - r.randint(1, 12) if k < 0.7 else r.randint(0, jlen - 1))
     seq0 = r.choice([1, 2, 77, 0x7FFFFFFA, 0xFFFFFFF9, r.randint(3, 1 << 31)])
     targets = jimg.free_blocks(r.randint(2, 9), r)
-    tmp_cfg = Cfg(jimg.bs, jimg.first, jimg.maxlen, jimg.uuid, inc, seq0, start_rel)
+    tmp_cfg = Cfg(jimg.bs, jimg.first, jimg.maxlen - (16 if fcj else 0), jimg.uuid, inc & ~INCOMPAT_FC, seq0, start_rel)
     txns, note = gen_txns(r, tmp_cfg, targets, force)
     if idx in (12, 13, 14):
         # directed: the transaction ids wrap around 2^32 between the logging of a block and its revocation
         seq0 = [0xFFFFFFFE, 0xFFFFFFFF, 0xFFFFFFFD][idx - 12]
-        tmp_cfg = Cfg(jimg.bs, jimg.first, jimg.maxlen, jimg.uuid, inc, seq0, start_rel)
+        tmp_cfg = Cfg(jimg.bs, jimg.first, jimg.maxlen - (16 if fcj else 0), jimg.uuid, inc & ~INCOMPAT_FC, seq0, start_rel)
         B = (targets * 4)[:4]
         mk = lambda blk, tag: {"blk": blk, "data": (bytes([tag]) * 16 + struct.pack(">II", tag, blk)).ljust(jimg.bs, bytes([tag]))}
         txns, t0 = [], 1700000000
@@ -247,9 +267,9 @@ def one_case(src, mexe, idx, seed, tier):
     if straddle and (r.random() < 0.5 or mode == "v1"):
         d_off, ntag = r.choice(straddle)
         start_rel = (jlen - (d_off + 1 + r.randint(1, ntag - 1))) % jlen
-        tmp_cfg = Cfg(jimg.bs, jimg.first, jimg.maxlen, jimg.uuid, inc, seq0, start_rel)
+        tmp_cfg = Cfg(jimg.bs, jimg.first, jimg.maxlen - (16 if fcj else 0), jimg.uuid, inc & ~INCOMPAT_FC, seq0, start_rel)
         note += " in txn; data blocks of one descriptor straddle the log end"
-    recipe = {"base": name, "mke2fs": opts, "journal": {"csum": mode, "64bit": bool(inc & INCOMPAT_64BIT), "async_commit": bool(inc & INCOMPAT_ASYNC), "start_rel": start_rel, "len": jlen, "seq0": seq0},
+    recipe = {"base": name, "mke2fs": opts, "journal": {"csum": mode, "64bit": bool(inc & INCOMPAT_64BIT), "async_commit": bool(inc & INCOMPAT_ASYNC), "fast_commit_area": fcj, "start_rel": start_rel, "len": jlen, "seq0": seq0},
               "note": note, "txns": [{"seq": x["seq"], "items": [(k2, [t["blk"] for t in p] if k2 == "D" else p) for k2, p in x["items"]],
                                       "commit": x.get("commit")} for x in txns]}
     a = os.path.join(WORK, "case_%d_a.img" % (idx % 64))
